@@ -159,3 +159,45 @@ pub fn sgr_face_case<const N: usize, const P: usize>() {
     assert!(same(&got_clean, &from_clean), "C06: library reads the SGR differently from SGR semantics (default rendition)");
 }
 
+
+/// decimal digits of a symbolic colour component at a concrete width
+fn component<const D: usize>(out: &mut [u8; 3]) -> u32 {
+    let mut v = 0u32;
+    let mut i = 0;
+    while i < D {
+        let d: u8 = any();
+        assume(d <= 9);
+        out[i] = b'0' + d;
+        v = v * 10 + d as u32;
+        i += 1;
+    }
+    v
+}
+
+/// The colour selection the encoder emits in true colour, `38;2;R;G;B` FOLLOWED by further
+/// parameters (`48;2;...`, `1`, ...): the library's reader must take exactly R, G, B and leave
+/// the following parameters alone. The parameter groups are handed to the real `sgr_color`
+/// as the `;`-separated slices `sgr_face` would pass (its `split` does not fit the solver).
+/// @bounds every R, G, B of the given digit widths (values above 255 included), followed by the group `48`
+/// @encodes decoder::sgr_color, decoder::number_decode
+pub fn sgr_color_case<const DR: usize, const DG: usize, const DB: usize>() {
+    let (mut r, mut g, mut b) = ([0u8; 3], [0u8; 3], [0u8; 3]);
+    let (rv, gv, bv) = (component::<DR>(&mut r), component::<DG>(&mut g), component::<DB>(&mut b));
+    let groups: [&[u8]; 6] = [b"2", &r[..DR], &g[..DG], &b[..DB], b"48", b"5"];
+    let mut iter = groups.iter().copied();
+    let got = surf_n_term::decoder::verif_hooks::sgr_color(&mut iter);
+    witness!(rv >= 1 && gv <= 255, "non-black colour");
+    let in_range = rv <= 255 && gv <= 255 && bv <= 255;
+    let clamp = |v: u32| if v > 255 { 255 } else { v };
+    use surf_n_term::Color;
+    match got {
+        Some(c) => {
+            let rgb = c.to_rgb();
+            // out of range components are clamped (or the selection rejected), never wrapped
+            assert!(rgb[0] as u32 == clamp(rv) && rgb[1] as u32 == clamp(gv) && rgb[2] as u32 == clamp(bv),
+                    "C06: `38;2;R;G;B` followed by more parameters is read as another colour");
+        }
+        None => assert!(!in_range, "C06: true colour selection not read back"),
+    }
+    assert!(iter.next() == Some(&b"48"[..]), "C06: colour selection swallowed the parameters that follow it");
+}
